@@ -12,7 +12,8 @@ RULE = ('Clayton: translation validation of the generated closed-form percent_po
         'Frank/Gumbel: real percent_point (brentq) vs the generated loop run with a Lean bisection on the generated '
         'h at Float (|du| <= 1e-8 or both residuals <= 1e-10); theta grid + random theta with |tau|<=0.8, (y,v) in '
         '[1e-4,1-1e-4]^2, vectors of 1..12; error kinds for invalid theta; distinct by (family, theta, rows)')
-PARTIAL = ['bracket_valid: that the root lies above the lower bracket end EPSILON=2^-23 is a hypothesis of '
+PARTIAL = ['Props/C08b closes the Frank bracket clause: h(EPSILON, v) <= y on the whole property domain (|theta| <= 20, y >= 1e-4), with the exact iff; for Gumbel the exact region where the root lies below the bracket (contained in y*v < EPSILON) and a kernel-checked witness inside the domain (theta = 4, y = v = 1e-4) = the recorded finding',
+           'bracket_valid: that the root lies above the lower bracket end EPSILON=2^-23 is a hypothesis of '
            'frank/gumbel_generic_ppf_correct; it is FALSE for Gumbel near (y,v)=(1e-4,1e-4), theta>~3 (known finding)',
            'brentq accuracy: external hypothesis (returns a root within xtol=2e-12)']
 ASSUMPTIONS = ['scipy.optimize.brentq returns a root of a continuous function with a sign change in the bracket']
